@@ -71,6 +71,8 @@ fn run(ctx: &mut Ctx) {
         let mut prog = gen_program(rng, &opts);
         // the parser does not care about program structure: sometimes break it
         if rng.chance(1, 5) { let f = *rng.pick(&faults::FAULTS); faults::inject(rng, &mut prog, f); }
+        // label names may continue with any Unicode word character: an eighth of the programs use such names throughout
+        if rng.chance(1, 8) { let sfx = *rng.pick(&["é", "φ", "文", "данные", "ï2"]); widen_labels(&mut prog.stmts, sfx); ctx.count("programs.with-non-ascii-labels"); }
         let a = analyze(&prog.stmts);
         let s1 = if rng.chance(1, 6) { Style::plain() } else { Style::random(rng) };
         let s2 = Style::random(rng);
@@ -108,7 +110,7 @@ fn run(ctx: &mut Ctx) {
 fn guard(m: &Merged, _t: Tier) -> Vec<String> {
     let mut out = vec![];
     for f in ["crlf", "tab", "colon", "label-on-own-line", "blank-or-comment-line", "hostile-comment", "comment", "lowercase-keyword", "mixedcase-keyword",
-              "num:#n", "num:n", "num:xH", "num:#-n", "num:-n", "num:x-H", "leading-zeros", "reg-leading-zero", "no-final-newline", "unknown-escape", "unknown-escape-non-ascii"] {
+              "num:#n", "num:n", "num:xH", "num:#-n", "num:-n", "num:x-H", "leading-zeros", "reg-leading-zero", "no-final-newline", "unknown-escape", "unknown-escape-non-ascii", "num:signed-zero"] {
         need(m, &mut out, &format!("feature.{f}"), 10);
     }
     need(m, &mut out, "pairs.parsed", 1000);
